@@ -108,17 +108,15 @@ def build(kind):
         )
         out = os.path.join(td, "x86_64-unknown-linux-gnu", "release", "vmon")
     elif kind == "tsan":
+        # pure-Rust flavour of vmon (no liblinear, no zstd), std rebuilt with the sanitizer
         td = os.path.join(BUILD, "tsan")
         r = run(
-            ["cargo", "+nightly", "build", "--release", "-p", "vthreads", "-Zbuild-std", "--target", "x86_64-unknown-linux-gnu"],
+            ["cargo", "+nightly", "build", "--release", "-p", "vmon", "--no-default-features", "-Zbuild-std",
+             "--target", "x86_64-unknown-linux-gnu"],
             cwd=HARNESS,
             env={"CARGO_TARGET_DIR": td, "RUSTFLAGS": "-Zsanitizer=thread"},
         )
-        out = os.path.join(td, "x86_64-unknown-linux-gnu", "release", "vthreads")
-    elif kind == "threads":
-        td = os.path.join(BUILD, "harness")
-        r = run(["cargo", "build", "--profile", "mon", "-p", "vthreads"], cwd=HARNESS, env={"CARGO_TARGET_DIR": td})
-        out = os.path.join(td, "mon", "vthreads")
+        out = os.path.join(td, "x86_64-unknown-linux-gnu", "release", "vmon")
     elif kind == "bins":
         td = os.path.join(BUILD, "repo-bins")
         r = run(
@@ -203,7 +201,7 @@ def _parse_events(path, res, workload, build_name, extra_args):
     return done
 
 
-def _stderr_tail(path, n=12):
+def _stderr_tail(path, n=40):
     try:
         with open(path, "r", errors="replace") as f:
             lines = f.read().splitlines()
@@ -220,6 +218,11 @@ def _classify_abort(rc, tail):
                 msg = l.split("unsafe precondition(s) violated:")[-1].strip()
                 msg = msg.split(" requires")[0].strip()
                 return "ub_precondition:" + msg.replace(" ", "_")[:60]
+    if "Undefined Behavior" in text or "error: unsupported operation" in text or "error: the evaluated program" in text:
+        for l in tail:
+            if "error:" in l:
+                return "miri:" + l.split("error:")[1].strip().replace(" ", "_")[:90]
+        return "miri"
     if "AddressSanitizer" in text:
         kind = "asan"
         for l in tail:
@@ -240,7 +243,7 @@ def _classify_abort(rc, tail):
     return "exit:%s" % rc
 
 
-def _run_chunk(binary, workload, seed, lo, hi, tier, extra, rundir, tag, timeout, env):
+def _run_chunk(binary, workload, seed, lo, hi, tier, extra, rundir, tag, timeout, env, hang_limit=HANG_LIMIT_S):
     """Runs cases lo..hi; on abort/timeout isolates the case and continues after it."""
     out = {"events": [], "aborts": [], "incidents": []}
     cur = lo
@@ -250,7 +253,7 @@ def _run_chunk(binary, workload, seed, lo, hi, tier, extra, rundir, tag, timeout
         ev = os.path.join(rundir, "%s-%d-%d.jsonl" % (tag, cur, attempt))
         jr = os.path.join(rundir, "%s-%d-%d.journal" % (tag, cur, attempt))
         er = os.path.join(rundir, "%s-%d-%d.stderr" % (tag, cur, attempt))
-        cmd = [binary, workload, "--seed", str(seed), "--from", str(cur), "--to", str(hi),
+        cmd = (binary if isinstance(binary, list) else [binary]) + [workload, "--seed", str(seed), "--from", str(cur), "--to", str(hi),
                "--events", ev, "--journal", jr, "--tier", tier] + extra
         e = dict(ENV_BASE)
         e.update(env or {})
@@ -277,13 +280,13 @@ def _run_chunk(binary, workload, seed, lo, hi, tier, extra, rundir, tag, timeout
         # isolate
         ev1 = os.path.join(rundir, "%s-iso-%d.jsonl" % (tag, k))
         er1 = os.path.join(rundir, "%s-iso-%d.stderr" % (tag, k))
-        cmd1 = [binary, workload, "--seed", str(seed), "--from", str(k), "--to", str(k + 1),
+        cmd1 = (binary if isinstance(binary, list) else [binary]) + [workload, "--seed", str(seed), "--from", str(k), "--to", str(k + 1),
                 "--events", ev1, "--tier", tier] + extra
         iso_timeout = False
         with open(er1, "w") as errf:
             p = subprocess.Popen(cmd1, stdout=errf, stderr=errf, env=e, cwd=rundir)
             try:
-                rc1 = p.wait(timeout=HANG_LIMIT_S)
+                rc1 = p.wait(timeout=hang_limit)
             except subprocess.TimeoutExpired:
                 p.kill()
                 p.wait()
@@ -291,7 +294,7 @@ def _run_chunk(binary, workload, seed, lo, hi, tier, extra, rundir, tag, timeout
                 iso_timeout = True
         tail1 = _stderr_tail(er1)
         if iso_timeout:
-            out["aborts"].append({"case": k, "sig": "hang:no_result_within_%ds_in_isolation" % HANG_LIMIT_S,
+            out["aborts"].append({"case": k, "sig": "hang:no_result_in_isolation_within_generous_limit",
                                   "stderr": tail1, "rc": None})
         elif rc1 != 0:
             out["aborts"].append({"case": k, "sig": "abort:" + _classify_abort(rc1, tail1), "stderr": tail1, "rc": rc1})
@@ -307,7 +310,8 @@ def _run_chunk(binary, workload, seed, lo, hi, tier, extra, rundir, tag, timeout
 
 
 def run_workload(res, build_name, workload, n_cases, tier, seed, extra=None, chunks=None,
-                 per_case_timeout=2.0, env=None, binary=None, first_case=0, tag=None):
+                 per_case_timeout=2.0, env=None, binary=None, first_case=0, tag=None, hang_limit=HANG_LIMIT_S,
+                 env_per_chunk=None):
     """Runs `n_cases` cases of `workload` sharded over the cores and aggregates into `res`."""
     extra = list(extra or [])
     binary = binary or build(build_name)
@@ -330,8 +334,11 @@ def run_workload(res, build_name, workload, n_cases, tier, seed, extra=None, chu
         futs = []
         for i, (a, b) in enumerate(ranges):
             timeout = 120 + per_case_timeout * (b - a) * 10
+            e_i = dict(env or {})
+            if env_per_chunk:
+                e_i.update(env_per_chunk(i))
             futs.append(ex.submit(_run_chunk, binary, workload, seed, a, b, tier, extra, rundir,
-                                  "c%03d" % i, timeout, env))
+                                  "c%03d" % i, timeout, e_i, hang_limit))
         for f in futs:
             outs.append(f.result())
     n_done = 0
@@ -462,3 +469,39 @@ def fail_inconclusive(prop, tier, seed, level, reason, t0):
     print("INCONCLUSIVE property=%s reason=%s" % (prop, reason.splitlines()[0] if reason else "?"))
     log(reason)
     return 2
+
+
+MIRI_CMD = ["cargo", "+nightly", "miri", "run", "-q", "--manifest-path", os.path.join(HARNESS, "Cargo.toml"),
+            "-p", "vmon", "--no-default-features", "--"]
+
+
+def miri_env(extra_flags=""):
+    return {"MIRIFLAGS": ("-Zmiri-disable-isolation " + extra_flags).strip(),
+            "CARGO_TARGET_DIR": os.path.join(BUILD, "miri")}
+
+
+def build_miri():
+    """Compiles the pure-Rust flavour of vmon for Miri (runs zero cases)."""
+    if "miri" in _built:
+        return
+    t0 = time.time()
+    os.makedirs(os.path.join(BUILD, "tmp"), exist_ok=True)
+    r = run(MIRI_CMD + ["C03", "--from", "0", "--to", "0", "--events", os.path.join(BUILD, "tmp", "miri-build.jsonl")],
+            cwd=HARNESS, env=miri_env())
+    if r.returncode != 0:
+        raise Inconclusive("miri build failed:\n" + "\n".join(r.stdout.splitlines()[-40:]))
+    _built["miri"] = True
+    log("[build] miri ok (%.1fs)" % (time.time() - t0))
+
+
+def run_miri(res, workload, n_cases, tier, seed, extra=None, procs=None, per_case_timeout=240.0, flags="", tag=None,
+             vary_scheduler_seed=False):
+    """Runs cases under Miri, one interpreter process per chunk. With vary_scheduler_seed every
+    process gets its own -Zmiri-seed (thread scheduling and address randomisation differ)."""
+    build_miri()
+    per_chunk = None
+    if vary_scheduler_seed:
+        per_chunk = lambda i: miri_env("%s -Zmiri-seed=%d" % (flags, seed * 1000 + i))
+    run_workload(res, "miri", workload, n_cases, tier, seed, extra=extra, chunks=procs or min(n_cases, NCPU),
+                 per_case_timeout=per_case_timeout, env=miri_env(flags), binary=MIRI_CMD, tag=tag or ("%s-miri" % workload),
+                 hang_limit=3600, env_per_chunk=per_chunk)
